@@ -137,6 +137,9 @@ def run_once(scn, prefix=(), chooser=None):
         def main():
             for si, nb in enumerate(scn["sessions"]):
                 where["si"], where["bi"] = si, 0
+                if si > 0 and scn.get("reseed_between"):
+                    # the user re-seeds the scheduler object between two calibrate() calls (a public setter)
+                    schd.random_state = scn["seed"] + 100 + si
                 ctl.events.append(("session_start", si))
                 try:
                     cal.calibrate(nb)
@@ -331,9 +334,9 @@ LOSS_SCRIPTS = [[5.0, 4.0, 4.0, 6.0, 1.0, 0.5, 0.5, 3.0, 0.25], [1.0, 2.0, 3.0, 
                 [3.0, float("nan"), 2.0, float("inf"), 1.0, float("nan")]]   # batches whose loss is not finite
 
 
-def scenario(sessions, agent="scripted", losses=0, script=(0, 1, 2, 1, 0, 2, 2, 0), seed=1, eps=0.3, fault=None):
+def scenario(sessions, agent="scripted", losses=0, script=(0, 1, 2, 1, 0, 2, 2, 0), seed=1, eps=0.3, fault=None, reseed=False):
     return {"sessions": list(sessions), "agent": agent, "losses": LOSS_SCRIPTS[losses], "script": list(script), "samplers": 2,
-            "alpha": -1, "eps": eps, "seed": seed, "fault": fault}
+            "alpha": -1, "eps": eps, "seed": seed, "fault": fault, "reseed_between": reseed}
 
 
 @st.composite
@@ -345,7 +348,7 @@ def sampled_cases(draw):
                                    min_size=3, max_size=9)),
            "script": draw(st.lists(st.integers(0, 3), min_size=1, max_size=6)), "samplers": draw(st.integers(1, 3)),
            "alpha": draw(st.sampled_from([-1, 0.5])), "eps": draw(st.sampled_from([0.0, 0.3, 1.0])),
-           "seed": draw(st.integers(0, 50))}
+           "seed": draw(st.integers(0, 50)), "reseed_between": draw(st.integers(0, 3)) == 0}
     if draw(st.integers(0, 3)) == 0:
         # a batch that fails (exception out of a sampler or of the loss), the bootstrap batch included
         si = draw(st.integers(0, len(sessions) - 1))
@@ -390,6 +393,8 @@ def run(ctx: Ctx):
                             ([1, 1], [0, 0, "loss"]), ([2], [0, 0, "sampler"]), ([1, 2], [1, 1, "loss", "base"])):
         if ok and not explore(ctx, scenario(sessions, fault=fault)):
             ok = False
+    if ok and not explore(ctx, scenario([1, 1], reseed=True)):
+        ok = False
     ctx.exhaustive_axes[f"all schedules of {[(p[0], len(p[1])) for p in plan]} (session list, variants) + 7 scenarios with a "
                         "failing batch"] = ok
     drive(ctx, "sampled", sampled_cases(), check_sampled, ctx.n(1600, 40000))
